@@ -27,7 +27,7 @@ Section Sort.
 End Sort.
 
 (* ---------------------------------------------------------------- pyhv.py, two objectives *)
-(* relevantPoints -= referencePoint *)
+(* relevantPoints = numpy.subtract(relevantPoints, referencePoint)  (not in place since a4d4824) *)
 Definition shift2 (rx ry : Q) (p : pt) : pt := (fst p - rx, snd p - ry).
 
 (* order of the list of dimension 1 after preProcess: decorated.sort() on (cargo[1], node) with
